@@ -36,6 +36,15 @@
 (*                       observation of the epoch                          *)
 (*   LoadOnlyOwnTargets  an engine loads only observations made by its own *)
 (*                       sensors of its own targets                        *)
+(*   MatchWholeSecond    the importer epoch is matched on the timestamp up  *)
+(*                       to the second: a record at ANOTHER epoch inside   *)
+(*                       the same wall-clock second is imported / masks a  *)
+(*                       gap                                               *)
+(*   DedupIgnoresSensor  (as once coded) the duplicate test of             *)
+(*                       loadImportedObservations looks at the sensor's    *)
+(*                       POSITION and the target only: of two different    *)
+(*                       sensors at the same coordinates only one          *)
+(*                       observation of a target survives                  *)
 (*   CrashOnDuplicate    (as once coded) the "dropped duplicate" branch of *)
 (*                       loadImportedObservations raises AttributeError    *)
 (*   KeepDuplicates      a row stored twice is handed to the filter twice  *)
@@ -50,6 +59,8 @@ CONSTANTS Configs,              \* set of configuration records explored in mode
           SkipEpochWithoutRow,
           LoadEveryEngine,      \* D28 as coded
           LoadOnlyOwnTargets,
+          MatchWholeSecond,
+          DedupIgnoresSensor,
           CrashOnDuplicate,
           KeepDuplicates,
           CreateMissingTables
@@ -57,6 +68,12 @@ CONSTANTS Configs,              \* set of configuration records explored in mode
 VARIABLES cfg,      \* [agents, imported, targets, nsteps,
                     \*  epochs: set of step indices for which the importer database has an Epoch row,
                     \*  rows: set of <<a, k>> (ephemeris records), obs: set of <<k, t, s>> (observation records),
+                    \*  near: set of <<a, j, side>>: ephemeris records at epochs that are NOT scenario epochs (the database
+                    \*       was sampled at other instants too, or merged from two producers): side "before" / "after" = inside
+                    \*       the same wall-clock second as scenario epoch j (the scenario starts on a fractional second),
+                    \*       "mid" = between step j - 1 and step j, in another second,
+                    \*  site: [sensors -> site]: sensors with the same site have IDENTICAL coordinates (two sensors of one
+                    \*       facility configured with the same latitude / longitude / altitude, or hosted on one spacecraft),
                     \*  dup: the observation records that are stored TWICE (same sensor, target, epoch, values: e.g. a
                     \*       database into which a run was imported twice),
                     \*  schema: "full" (every table of the data model exists) or "minimal" (only the tables the importer
@@ -68,7 +85,7 @@ VARIABLES cfg,      \* [agents, imported, targets, nsteps,
           registered,
           done,     \* engines that have assessed (and loaded their imported observations) this step
           reached,  \* [obs -> number of times handed to the filter update of the observed target this step]
-          impdb     \* the importer database as the run leaves it: <<epochs, rows, obs, dup, schema>>
+          impdb     \* the importer database as the run leaves it: <<epochs, rows, obs, dup, schema, near>>
 vars == <<cfg, k, pc, held, registered, done, reached, impdb>>
 
 SensorsIn(c) == c.agents \ c.targets
@@ -79,6 +96,8 @@ WellFormed(c) ==
   /\ \A r \in c.rows : r[2] \in c.epochs
   /\ \A o \in c.obs : o[1] \in c.epochs /\ o[2] \in c.targets /\ o[3] \in SensorsIn(c)
   /\ c.dup \subseteq c.obs /\ c.schema \in {"full", "minimal"}
+  /\ \A r \in c.near : r[2] \in 0..c.nsteps /\ r[3] \in {"before", "after", "mid"}
+  /\ DOMAIN c.site = SensorsIn(c)
   /\ DOMAIN c.sensorOf = SensorsIn(c) /\ \A s \in SensorsIn(c) : c.sensorOf[s] \in c.engines
   /\ DOMAIN c.tracks = c.engines /\ \A t \in c.targets : \E e \in c.engines : t \in c.tracks[e]
 
@@ -89,7 +108,7 @@ InitWith(c) ==
   /\ registered = {}
   /\ done = {}
   /\ reached = [o \in c.obs |-> 0]
-  /\ impdb = <<c.epochs, c.rows, c.obs, c.dup, c.schema>>
+  /\ impdb = <<c.epochs, c.rows, c.obs, c.dup, c.schema, c.near>>
 Init == \E c \in Configs : InitWith(c)
 
 \* agents that take part in step j (an agent added by an event of step j is propagated / imported in step j)
@@ -119,19 +138,28 @@ BeginStep ==
   /\ pc' = "registered"
   /\ UNCHANGED <<cfg, impdb>>
 
+\* records of a at other epochs inside the wall-clock second of scenario epoch j: as designed they are never used
+SameSecond(a, j, sides) == {r \in cfg.near : r[1] = a /\ r[2] = j /\ r[3] \in sides}
+\* deviation: everything whose timestamp starts with the scenario epoch's second counts as "the record of this epoch"
+Matched(a) == HasRow(a, k) \/ (MatchWholeSecond /\ SameSecond(a, k, {"before", "after"}) # {})
 Complete == IF CountBasedCheck
               THEN Cardinality(RowsAt(k)) >= Cardinality(registered)
-              ELSE \A a \in registered : HasRow(a, k)
+              ELSE \A a \in registered : Matched(a)
 \* deviation: "the database holds no data at this epoch, nothing to import"
 EpochSkipped == SkipEpochWithoutRow /\ EpochAbsent(k)
 \* what the agents hold after importEphemerides went through
-AfterImport == [a \in cfg.agents |-> IF a \in registered /\ HasRow(a, k) THEN <<"import", k>> ELSE held[a]]
+\* (under MatchWholeSecond the first matching row wins: the earliest epoch of the second)
+AfterImport == [a \in cfg.agents |->
+                  IF a \notin registered \/ ~Matched(a) THEN held[a]
+                  ELSE IF MatchWholeSecond /\ SameSecond(a, k, {"before"}) # {} THEN <<"foreign", k>>
+                  ELSE IF HasRow(a, k) THEN <<"import", k>>
+                  ELSE <<"foreign", k>>]
 
 \* importEphemerides: every registered agent with a row takes the row's state
 ImportOk ==
   /\ pc = "registered" /\ cfg.imported # {} /\ (Complete \/ EpochSkipped)
   /\ held' = AfterImport
-  /\ registered' = {a \in registered : ~HasRow(a, k)}
+  /\ registered' = {a \in registered : ~Matched(a)}
   /\ pc' = "imported"
   /\ UNCHANGED <<cfg, k, done, reached, impdb>>
 
@@ -148,9 +176,12 @@ ImportMissing ==
   /\ UNCHANGED <<cfg, k, held, registered, done, reached, impdb>>
 
 \* engine e's assess(): loadImportedObservations, then Scenario files them under the observed target (obs_dict)
-Loads(e) == {o \in cfg.obs : /\ o[1] = k
-                             /\ (LoadEveryEngine \/ o[3] \in SensorsOf(e))
-                             /\ (LoadOnlyOwnTargets => o[2] \in cfg.tracks[e])}
+Queried(e) == {o \in cfg.obs : /\ o[1] = k
+                               /\ (LoadEveryEngine \/ o[3] \in SensorsOf(e))
+                               /\ (LoadOnlyOwnTargets => o[2] \in cfg.tracks[e])}
+\* observations of one target made from one place; as designed two DIFFERENT sensors are two observations
+SamePlace(e, o) == {p \in Queried(e) : p[2] = o[2] /\ cfg.site[p[3]] = cfg.site[o[3]]}
+Loads(e) == IF DedupIgnoresSensor THEN {o \in Queried(e) : o = CHOOSE p \in SamePlace(e, o) : TRUE} ELSE Queried(e)
 \* the query returns a stored-twice row twice; the engine keeps the first and drops the second ("Dropped duplicate")
 Copies(o) == IF KeepDuplicates /\ o \in cfg.dup THEN 2 ELSE 1
 HitsDuplicate(e) == Loads(e) \cap cfg.dup # {}
